@@ -589,7 +589,7 @@ func containChild(args []string) int {
 		}
 		if in.Listener == "bolt-evil-upstream" {
 			// the client must get an error reply or a close within the request time-out + slack, never hang
-			c.SetReadDeadline(time.Now().Add(2500 * time.Millisecond))
+			c.SetReadDeadline(time.Now().Add(6 * time.Second)) // request time-out 600 ms; generous because the box may be loaded
 			fr, err := readFrame(c, "bolt")
 			switch {
 			case err == nil:
@@ -599,7 +599,7 @@ func containChild(args []string) int {
 					res.FollowOK = true // the corrupted answer was still a decodable success response
 				}
 			case isTimeout(err):
-				res.Problem = "no reply and no close within 2.5 s after the upstream answered with a malformed frame"
+				res.Problem = "no reply and no close within 6 s after the upstream answered with a malformed frame (request time-out 600 ms)"
 			default:
 				res.Closed = true
 			}
